@@ -27,6 +27,45 @@ import (
 type EnumEnv struct {
 	T    *testing.T
 	Tier string
+	// Deadline (zero = none) is the wall-clock budget of this item: an enumerator that reaches it stops, says how far
+	// it got in its (simplest-first) order and reports Exhaustive=false; it never turns into a violation.
+	Deadline time.Time
+	calls    int
+}
+
+// budgetGuard is what an enumerator asks before every evaluation of its shard: once the item's budget is used up the
+// enumerator stops evaluating, the result says in which phase of its simplest-first order that happened, and
+// Exhaustive is false.
+type budgetGuard struct {
+	env     *EnumEnv
+	res     *EnumResult
+	phase   string
+	expired bool
+}
+
+func (g *budgetGuard) over() bool {
+	if g.expired {
+		return true
+	}
+	if g.env.Expired() {
+		g.expired = true
+		g.res.Exhaustive = false
+		g.res.Notes = append(g.res.Notes, fmt.Sprintf("budget reached in phase %q after %d evaluations of this shard; everything before that phase was covered completely", g.phase, g.res.Evaluations))
+		return true
+	}
+	return false
+}
+
+// Expired reports whether the item's budget is used up (the clock is read every 64th call).
+func (e *EnumEnv) Expired() bool {
+	if e.Deadline.IsZero() {
+		return false
+	}
+	e.calls++
+	if e.calls%64 != 0 {
+		return false
+	}
+	return time.Now().After(e.Deadline)
 }
 
 // KnownFinding is one entry of /verif/known_findings.json.
@@ -114,7 +153,11 @@ func runItem(t *testing.T, it *WorkItem, wal *os.File) *WorkResult {
 		}
 		start := time.Now()
 		restore := freshDefaultPool()
-		res.Enum = pd.Enum(&EnumEnv{T: t, Tier: *flagTier}, it)
+		env := &EnumEnv{T: t, Tier: *flagTier}
+		if it.Opts.MaxSeconds > 0 {
+			env.Deadline = start.Add(time.Duration(it.Opts.MaxSeconds) * time.Second)
+		}
+		res.Enum = pd.Enum(env, it)
 		restore()
 		res.Stats.WallMS = time.Since(start).Milliseconds()
 	default:
@@ -263,11 +306,25 @@ func coordinate(prop, tier string) int {
 		// Two passes under a wall-clock budget: first every item with a small cap (the cheap ones finish completely),
 		// then the items that hit it again, sharing what is left of the budget.
 		const firstCap = 20
+		enumItems := 0
+		for _, it := range all {
+			if it.Kind == "enum" {
+				enumItems++
+			}
+		}
+		enumWaves := (enumItems + n - 1) / n
+		if enumWaves < 1 {
+			enumWaves = 1
+		}
 		orig := map[int]int{}
 		for _, it := range all {
 			orig[it.ID] = it.Opts.MaxSeconds
 			if it.Kind == "explore" && (it.Opts.MaxSeconds == 0 || it.Opts.MaxSeconds > firstCap) {
 				it.Opts.MaxSeconds = firstCap
+			}
+			if it.Kind == "enum" && it.Opts.MaxSeconds == 0 {
+				// enumerator shards run side by side, in as many waves as the workers need: each gets its share
+				it.Opts.MaxSeconds = int(budget.Seconds() * 0.9 / float64(enumWaves))
 			}
 		}
 		runBatch(all, n, tier, agg, results)
